@@ -532,6 +532,32 @@ class Ctx:
         return 1 if violations else 0
 
 
+def anchor_changes(prop_id):
+    """anchored source files of the property whose AST differs from the recorded one"""
+    import ast
+    try:
+        rec = json.load(open(os.path.join(VERIF, 'harness', 'anchor_hashes.json')))['files']
+        files = []
+        for ln in open(os.path.join(VERIF, 'properties.jsonl')):
+            pr = json.loads(ln)
+            if pr['id'] == prop_id:
+                files = pr['anchors']['files']
+        changed = []
+        for f, h in rec.items():
+            if not any(f == a or f.startswith(a.rstrip('/') + '/') for a in files):
+                continue
+            p = os.path.join(CHI_SRC, f)
+            try:
+                now = hashlib.sha1(ast.dump(ast.parse(open(p).read())).encode()).hexdigest()
+            except Exception:
+                now = 'unreadable'
+            if now != h:
+                changed.append(f)
+        return changed
+    except Exception:
+        return []
+
+
 def load_findings(prop_id):
     path = os.path.join(VERIF, 'known_findings.json')
     if not os.path.exists(path):
